@@ -23,9 +23,9 @@ TRUSTED = ["IEEE-754: on the 'exact' family all quotients/sums of assignCrowding
 ASSUMPTIONS = ["every individual is evaluated, all fitnesses have the same number (>= 1, >= 2 for nd='log') of objectives, finite "
                "values, non-zero weights, k >= 0; individuals and their fitness objects are distinct objects",
                "the crowding formula is checked where the statement defines it: objective values pairwise distinct"]
-EXPLANATION = ("C05.* are proved for any list of fronts satisfying C04's specification (so for both back-ends: model A by "
-               "C04.sortStd_eq_peel, the log-time back-end by the per-run certificate of C04); the correspondence ties "
-               "Core/Crowding.lean to the real assignCrowdingDist/selNSGA2.")
+EXPLANATION = ("C05.* are proved for any list of fronts satisfying C04's specification, and both back-ends are proved to "
+               "satisfy it (C05.selNSGA2_standard via C04.sortStd_eq_peel, C05.selNSGA2_log via C04.sortLog_eq_peel); the "
+               "correspondence ties Core/Crowding.lean to the real assignCrowdingDist/selNSGA2.")
 
 INF = float("inf")
 
